@@ -63,6 +63,11 @@ TEMPLATES = {
     "nested_in_dict_type_change": ["assert {{'a': [1]}} == snapshot({{'a': snapshot({a})}})"],
     "nested_in_call": ["assert DC(a={a}, b={b}) == snapshot(DC(a=snapshot({a} + 1), b=snapshot({b})))"],
     "nested_twice": ["assert [[{a}]] == snapshot([snapshot([snapshot({b})])])"],
+    "nested_two_inner_parent_replaced": ["assert {s!r} == snapshot([snapshot({a}+0), snapshot({b}+0)])"],
+    "nested_two_inner_elem_deleted": ["assert [{a}] == snapshot([[snapshot({a}+0), snapshot({b}+0)], {a}])"],
+    "nested_three_inner_in_dict_value_replaced": ["assert {{'k': 1}} == snapshot({{'k': [snapshot({a}+0), snapshot({b}+0), snapshot(0+1)], 'gone': (snapshot(2+0), snapshot(3+0))}})"],
+    "nested_two_inner_in_deleted_call_arg": ["assert DC(a=1) == snapshot(DC(a=1, b=[snapshot({a}+0), snapshot({b}+0)]))"],
+    "subsnapshot_is_reevaluated": ["for i in range(3):", "    assert snapshot({{'a': Is({a}), 'b': [Is(i)]}})['a'] == {a}"],
     "nested_subsnapshot": ["s = snapshot({{'k': [snapshot({a})]}})", "assert s['k'] == [{b}, {a}]"],
     "nested_le": ["assert [{a}] == snapshot([snapshot({b})])", "assert 1 == snapshot(2)"],
     "second_operator": ["s = snapshot({a})", "assert {a} == s", "assert {a} <= s"],
